@@ -391,7 +391,7 @@ theorem reconnect_rate_limited (cfg : Cfg) (cbs : List Nat) (evs : List TEv) (ha
 /-- Delays honoured — for EVERY accepted run: in a multicomm call of caller `c` (started at position a with requests
 `reqs`, not yet returned), two consecutive sends of `c` at positions p < q are at least the delay of the request sent
 at p apart; that request is `reqs[m]` where m is the number of sends of the call before p. -/
-theorem delays_honoured_run (cfg : Cfg) (cbs : List Nat) (evs : List TEv) (hacc : Accepted cfg cbs evs) (hid : cfg.ident = [])
+theorem delays_honoured_run (cfg : Cfg) (cbs : List Nat) (evs : List TEv) (hacc : Accepted cfg cbs evs)
     (c a p q : Nat) (reqs : List Req) (ha : evAt evs a = some (.call c .multi reqs)) (hap : a < p) (hpq : p < q)
     (hnr : ∀ m, a < m → m < q → isRetOf c (evAt evs m) = false)
     (hp : sendAt evs p = some c) (hq : sendAt evs q = some c) (hno : ∀ m, p < m → m < q → sendAt evs m ≠ some c) :
@@ -404,7 +404,7 @@ theorem delays_honoured_run (cfg : Cfg) (cbs : List Nat) (evs : List TEv) (hacc 
     obtain ⟨eq, heq⟩ : ∃ eq, evs[q]? = some eq := ⟨evs[q], by simp [hqlt]⟩
     obtain ⟨sk, sk', hpre, hst⟩ := exec_cut _ evs q eq heq sf hex
     have hl := linv_exec cfg cbs (evs.take q) sk hpre
-    have hg := ginv_exec cfg cbs (evs.take q) sk hid hpre
+    have hg := ginv_exec cfg cbs (evs.take q) sk hpre
     have hlen : (evs.take q).length = q := by simp; omega
     have hclk : sk.clock ≤ eq.t := by
       unfold step at hst; split at hst
@@ -456,7 +456,7 @@ theorem delays_honoured_run (cfg : Cfg) (cbs : List Nat) (evs : List TEv) (hacc 
 
 /-- … and a multicomm that returns its replies does not return before the delay of the request sent last has passed
 (p: position of the last send of the call, b: position of the return). -/
-theorem delays_honoured_return (cfg : Cfg) (cbs : List Nat) (evs : List TEv) (hacc : Accepted cfg cbs evs) (hid : cfg.ident = [])
+theorem delays_honoured_return (cfg : Cfg) (cbs : List Nat) (evs : List TEv) (hacc : Accepted cfg cbs evs)
     (c a p b : Nat) (reqs : List Req) (rs : List Bytes) (ha : evAt evs a = some (.call c .multi reqs)) (hap : a < p) (hpb : p < b)
     (hnr : ∀ m, a < m → m < b → isRetOf c (evAt evs m) = false)
     (hp : sendAt evs p = some c) (hb : evAt evs b = some (.ret c (.ok rs))) (hno : ∀ m, p < m → m < b → sendAt evs m ≠ some c) :
@@ -472,7 +472,7 @@ theorem delays_honoured_return (cfg : Cfg) (cbs : List Nat) (evs : List TEv) (ha
     have hv : eb.ev = .ret c (.ok rs) := by simpa [evAt, heb] using hb
     obtain ⟨sk, sk', hpre, hst⟩ := exec_cut _ evs b eb heb sf hex
     have hl := linv_exec cfg cbs (evs.take b) sk hpre
-    have hg := ginv_exec cfg cbs (evs.take b) sk hid hpre
+    have hg := ginv_exec cfg cbs (evs.take b) sk hpre
     have hlen : (evs.take b).length = b := by simp; omega
     have hclk : sk.clock ≤ eb.t := by
       unfold step at hst; split at hst
@@ -819,12 +819,12 @@ theorem transaction_uninterrupted (cfg : Cfg) (cbs : List Nat) (evs : List TEv) 
       exact hnr m h1 h2
     · rw [trafficAt_take evs k j hjk]; exact htj
 
-/-- The pause after the last command belongs to the transaction — for EVERY accepted run of a communicator without
-identification: let a multicomm call of caller `c` (started at a with requests `reqs`) return its replies at b; if
+/-- The pause after the last command belongs to the transaction — for EVERY accepted run (any configuration, the
+identification made on connect included): let a multicomm call of caller `c` (started at a with requests `reqs`) return its replies at b; if
 ANOTHER caller touches the connection at q (send, flush or recv) after a send of `c` at p, with no send of `c` between p
 and q, then q is at least the delay of the request sent at p after p.  (That request is `reqs[m]`, m = number of sends of
 the call before p.  By `transaction_uninterrupted` p is the LAST send of the call: before that nobody else gets in.) -/
-theorem last_delay_protected_run (cfg : Cfg) (cbs : List Nat) (evs : List TEv) (hacc : Accepted cfg cbs evs) (hid : cfg.ident = [])
+theorem last_delay_protected_run (cfg : Cfg) (cbs : List Nat) (evs : List TEv) (hacc : Accepted cfg cbs evs)
     (c a p q b c' : Nat) (reqs : List Req) (rs : List Bytes) (ha : evAt evs a = some (.call c .multi reqs))
     (hap : a < p) (hpq : p < q) (hqb : q < b)
     (hnr : ∀ m, a < m → m < b → isRetOf c (evAt evs m) = false) (hb : evAt evs b = some (.ret c (.ok rs)))
@@ -845,7 +845,7 @@ theorem last_delay_protected_run (cfg : Cfg) (cbs : List Nat) (evs : List TEv) (
     obtain ⟨sk, sk', hpre, hst⟩ := exec_cut _ evs q eq heq sf hex
     have hi := inv_exec cfg cbs (evs.take q) sk hpre
     have hl := linv_exec cfg cbs (evs.take q) sk hpre
-    have hg := ginv_exec cfg cbs (evs.take q) sk hid hpre
+    have hg := ginv_exec cfg cbs (evs.take q) sk hpre
     have hlen : (evs.take q).length = q := by simp; omega
     have hclk : sk.clock ≤ eq.t := by
       unfold step at hst; split at hst
@@ -924,10 +924,10 @@ theorem last_delay_protected_run (cfg : Cfg) (cbs : List Nat) (evs : List TEv) (
 
 
 /-- A transaction is protected until its last delay has elapsed — the clause in the WINDOW form of the monitor
-(`transactionProtectedB`), for EVERY accepted run of a communicator without identification: `transaction_protected_statement`
-restricted to `cfg.ident = []`.  From `transaction_uninterrupted` (before the last send) and `last_delay_protected_run`
+(`transactionProtectedB`), for EVERY accepted run (any configuration): this IS `transaction_protected_statement`
+(`transaction_protected_full`).  From `transaction_uninterrupted` (before the last send) and `last_delay_protected_run`
 (after it). -/
-theorem transaction_protected (cfg : Cfg) (cbs : List Nat) (evs : List TEv) (hacc : Accepted cfg cbs evs) (hid : cfg.ident = []) :
+theorem transaction_protected (cfg : Cfg) (cbs : List Nat) (evs : List TEv) (hacc : Accepted cfg cbs evs) :
     TransactionProtected evs := by
   unfold TransactionProtected transactionProtectedB
   simp only [allBelow, List.all_eq_true, List.mem_range]
@@ -987,10 +987,13 @@ theorem transaction_protected (cfg : Cfg) (cbs : List Nat) (evs : List TEv) (hac
                 simp only [Option.some.injEq] at this
                 exact hcc this
               · refine ⟨hgt, ?_⟩
-                exact last_delay_protected_run cfg cbs evs hacc hid x a pl q (spanEnd evs x a) c' reqs rs hev
+                exact last_delay_protected_run cfg cbs evs hacc x a pl q (spanEnd evs x a) c' reqs rs hev
                   (by omega) hgt hqb hnr hbev hsl (fun m h3 h4 => hlast m h3 (by omega)) htr hcc
         · left; exact hpq
 
+
+theorem transaction_protected_full : transaction_protected_statement :=
+  fun cfg cbs evs hacc => transaction_protected cfg cbs evs hacc
 
 /-- `atomicRun` with caller 2 getting the lock as soon as the multicomm of caller 1 has given it back — after the pause
 of 0.2 s that follows the last command — and before that call returns -/
@@ -1234,6 +1237,28 @@ example : evAt healRun 11 = some (.hclose 3) ∧ evAt healRun 12 = some (.isconn
   decide
 -- the monitors agree on the run with identification and a reply of variable length
 example : staleDiscardedB true [] identRun = true ∧ closedVisibleB healRun = true ∧ moreIn identRun 1 16 21 = 3 := by decide
+
+/-- with an identification: a multicomm (one request, pause 0.1 s) that has to connect first — the identification request
+goes out inside its `check_connection` — against a communicate of caller 2 -/
+def identMultiRun : List TEv := [
+  ⟨5000000, .call 1 .multi [⟨[65], true, 2, 100000⟩]⟩, ⟨5000000, .acq 1⟩, ⟨5000000, .chk 1 false⟩, ⟨5000001, .now 1 5000001⟩,
+  ⟨5000002, .now 1 5000002⟩, ⟨5000002, .connect 1 true true⟩, ⟨5000003, .isconn 1 true⟩,
+  ⟨5000003, .chk 1 true⟩, ⟨5000003, .acq 1⟩, ⟨5000003, .flush 1⟩, ⟨5000003, .isend 1 0 0 [73, 68]⟩,
+  ⟨5000004, .call 2 .comm [⟨[66], true, 2, 0⟩]⟩, ⟨5000004, .chk 2 true⟩,
+  ⟨5100000, .arrive 0 (some 0) [105, 100, 48, 120]⟩, ⟨5100000, .recv 1 (.data [105, 100, 48, 120])⟩, ⟨5100000, .rel 1⟩,
+  ⟨5100001, .idend 1 true⟩,
+  ⟨5100002, .acq 1⟩, ⟨5100002, .flush 1⟩, ⟨5100002, .send 1 0 1 [65]⟩,
+  ⟨5200000, .arrive 0 (some 1) [97, 48]⟩, ⟨5200000, .recv 1 (.data [97, 48])⟩, ⟨5200000, .rel 1⟩,
+  ⟨5200000, .slp 1 100000⟩, ⟨5300000, .wake 1⟩, ⟨5300000, .rel 1⟩,
+  ⟨5300000, .acq 2⟩, ⟨5300000, .flush 2⟩, ⟨5300000, .send 2 0 2 [66]⟩, ⟨5300001, .ret 1 (.ok [[97, 48]])⟩,
+  ⟨5400000, .arrive 0 (some 2) [98, 48]⟩, ⟨5400000, .recv 2 (.data [98, 48])⟩, ⟨5400000, .rel 2⟩, ⟨5400001, .ret 2 (.ok [[98, 48]])⟩]
+
+-- delays_honoured_return / last_delay_protected_run / transaction_protected with an identification configured
+example : Accepted identCfg [] identMultiRun ∧ identCfg.ident ≠ [] ∧ sendAt identMultiRun 19 = some 1 ∧
+    trafficAt identMultiRun 27 = some 2 ∧ evAt identMultiRun 29 = some (.ret 1 (.ok [[97, 48]])) ∧
+    timeAt identMultiRun 19 + 100000 ≤ timeAt identMultiRun 27 ∧ transactionProtectedB identMultiRun = true ∧
+    delaysHonouredB identMultiRun = true := by
+  unfold Accepted; decide
 
 /-! ## facts about the constants taken from the source (re-generated on every run) -/
 
